@@ -253,6 +253,15 @@ def judge_writes(facts, b, only_blocks=None):
 
 
 def run(facts):
+    # A8 justifies each store by what held *before* the function's stores (`self.len += other.len; self.cap += other.cap` under the
+    # adjacency test that mentions the old len): its conditions are facts about the state at the time of the check.  What the
+    # function leaves behind after all its stores is A18's business (state at the end of the path).
+    from .flow import allow_stale_guards
+    with allow_stale_guards():
+        return _run(facts)
+
+
+def _run(facts):
     res = Result("A8", "every write to BytesMut.{ptr,len,cap} is bounded by the allocation, paired with its companions, preceded by the byte move; "
                        "copy_nonoverlapping is guarded by distance >= n; split halves use one cut operand; merge needs all adjacency conjuncts")
     n_writes = 0
